@@ -1,5 +1,6 @@
 import Cppcheck.Proofs.Calc
 import Cppcheck.Proofs.Infer
+import Cppcheck.Proofs.VFValidator
 /-
 C01 — value-flow facts hold in every UB-free execution.  Property theorems.
 
@@ -74,5 +75,52 @@ example : (∀ v ∈ [({ kind := .impossible, bound := .upper, intvalue := 2 } :
       [{ kind := .known, bound := .point, intvalue := 2 }] =
       [{ kind := .impossible, bound := .upper, intvalue := 0 }, { kind := .impossible, bound := .lower, intvalue := 6 }] := by
   decide
+
+/-! Part 2: constant folding of a binary operator in `setTokenValue` against the C semantics at the type of the operation (F5) -/
+
+open Cppcheck.MiniC Cppcheck.VFV in
+/-- full statement: for unsigned operands the folded value is the value C computes.  False of the code: the folding is done in
+    64 bits and the result is attached untruncated.  Witness `UINT_MAX + 1u` on LP64: folded 4294967296, C gives 0. -/
+theorem fold_binary_unsigned_wrap_counterexample :
+    ¬ ∀ a b : Int, inTy lp64 tUInt a → inTy lp64 tUInt b → foldBinary .add a b = evalBin lp64 .add tUInt tUInt a b := by
+  intro h
+  have := h 4294967295 1 (by decide) (by decide)
+  revert this
+  decide
+
+open Cppcheck.MiniC Cppcheck.VFV in
+/-- … and it is the value C computes whenever the mathematically exact result fits the (unsigned, unpromoted) type of the
+    operation — the excluding hypothesis `hfit` is exactly the classifier of the known finding F5. -/
+theorem fold_binary_sound_partial (P : Cppcheck.Platforms.Platform) (t : Ty) (a b : Int) (hu : t.signed = false) (hp : uac P t t = t)
+    (ha : inTy P t a) (hb : inTy P t b) :
+    (inTy P t (a + b) → inI64 (a + b) → foldBinary .add a b = evalBin P .add t t a b) ∧
+    (inTy P t (a - b) → inI64 (a - b) → foldBinary .sub a b = evalBin P .sub t t a b) ∧
+    (inTy P t (a * b) → inI64 (a * b) → foldBinary .mul a b = evalBin P .mul t t a b) := by
+  refine ⟨?_, ?_, ?_⟩ <;> intro hfit h64 <;>
+    simp [foldBinary, calculate, evalBin, BinOp.isShift, hp, conv_id ha, conv_id hb, arith, hu, conv_id hfit, wrap64_of_in _ h64]
+
+open Cppcheck.MiniC Cppcheck.VFV in
+example : inTy lp64 tUInt 7 ∧ inTy lp64 tUInt (7 + 5) ∧ uac lp64 tUInt tUInt = tUInt ∧ foldBinary .add 7 5 = some 12 := by decide
+
+/-! Part 3: the fact validator (Model/VFValidator.lean) over MiniC (Model/MiniC.lean) -/
+
+open Cppcheck.MiniC Cppcheck.VFV in
+/-- **validator_sound.**  If the validator accepts the fact `φ` for the function `f` on platform `P`, then in every run of `f`
+    (any argument vector, any fuel — i.e. every finite prefix of every execution, whether it ends normally, in undefined
+    behaviour or is cut off) every evaluation of the occurrence `φ.occ` yields a value of which `φ` holds.  In particular
+    it holds in every UB-free execution, which is what the property asks for.  No hypothesis on `P`, `f` or `φ`. -/
+theorem validator_sound (P : Cppcheck.Platforms.Platform) (f : Func) (φ : Fact) (h : validate P f φ = true) :
+    ∀ (args : List Int) (fuel : Nat), ∀ ev ∈ (run P f fuel args).2, ev.1 = φ.occ → φ.holds ev.2 :=
+  fun args fuel => validate_sound P f φ h args fuel
+
+-- a non-trivial accepted fact:  int f(int p){ int v = 0; if (p < 4) { v = T1(p) + 1; } return T2(v); }  ⇒  T2 never ≥ 5
+open Cppcheck.MiniC Cppcheck.VFV in
+example :
+    validate lp64
+      ⟨1, [tInt, tInt],
+        .seq (.assign 10 1 (.lit 0 tInt))
+          (.seq (.ite (.bin .lt (.var 0) (.lit 4 tInt)) (.assign 11 1 (.bin .add (.tag 1 (.var 0)) (.lit 1 tInt))) .skip)
+            (.ret (.tag 2 (.var 1))))⟩
+      ⟨2, .impossible, .lower, 5⟩ = true := by decide
 
 end Cppcheck.C01
